@@ -176,10 +176,10 @@ func (b *recBinder) BindRequest(_ *http.Request, route *middleware.MatchedRoute)
 }
 
 type outcome struct {
-	codes    []int
-	consumer string // tag selected / called ("" none)
+	codes     []int
+	consumer  string // tag selected / called ("" none)
 	handlerOK bool
-	errText  string
+	errText   string
 }
 
 func (o outcome) gate() string {
